@@ -1,8 +1,9 @@
 (* Property C11: MPO.dagger and MPO.__add__ on weighted automata.
-   Only statements; every proof is `exact <lemma from Proofs/AutomatonP.v or Proofs/PropUIP.v>`. *)
+   Only statements; every proof is `exact <lemma from Proofs/AutomatonP.v, Proofs/PropUIP.v or
+   Proofs/PropUICheckP.v>`. *)
 From TenpyV Require Import Base.Prelude Model.Automaton Proofs.AutomatonP.
-From TenpyV Require Model.PropUI Proofs.PropUIP.
-Import Model.PropUI.
+From TenpyV Require Model.PropUI Proofs.PropUIP Model.PropUICheck Proofs.PropUICheckP.
+Import Model.PropUI Model.PropUICheck.
 Open Scope Z_scope.
 
 (* the conjugated graph denotes the conjugated operator (operators on different sites commute) *)
@@ -57,8 +58,13 @@ Proof. vm_compute. split; reflexivity. Qed.
    leaving IdR and redirects every edge entering IdR to IdL with weight dt * w; the operator is the
    sum over paths IdL ->* IdL.  Edge weights are monomials c * dt^d, so the graded automaton
    ui_graph (degree 1 on redirected edges) is exact: ui_den d g is the coefficient of dt^d.
-   Tied to the code through these theorems, which link it to `denote` of Model/Automaton.v, and
-   through the numeric slope oracle only.) *)
+   Tie to the code: correspondence stream `c11_make_U_I` of harness/c11.py (checker check_UI_grid of
+   Model/PropUICheck.v, evaluated inside Coq on exact data): for finite H (term lists and explicit graphs,
+   standard sum form or not, virtual indices permuted so that IdL / IdR sit anywhere, integer /
+   Gaussian-integer strengths) and Gaussian-integer dt, the W grid entries, IdL, IdR and chi of the
+   MPO returned by H.make_U_I(dt) are compared with ui_eval dt g and with the graded automaton
+   ui_graph g evaluated at dt, where g is the graph of the W grid of H; the operator of the result is
+   compared with the Taylor polynomial ui_taylor.  Numeric steps: slope oracle only.) *)
 
 (* coefficient of dt^0 is the identity, for every graph in standard sum form (any length) *)
 Theorem T11_UI_order0 : forall g, std_form g = true -> ui_den 0 g = [(c1, [])].
@@ -90,6 +96,52 @@ Theorem T11_UI_terms_split : forall g, std_form g = true ->
   peq (denote g) (flat_map (ui_terms_at g 0 IdL) (seq 0 (length g))).
 Proof. exact PropUIP.UI_terms_split. Qed.
 
+(* ---- the correspondence checker of make_U_I (Model/PropUICheck.v) *)
+
+(* the graded automaton evaluated at t (weight * t^degree on every edge) IS the evaluated U_I graph *)
+Theorem T11_UI_graded_eval : forall t g, geval t (ui_graph g) = ui_eval t g.
+Proof. exact PropUICheckP.geval_ui_graph. Qed.
+
+(* the entry-wise comparison of W grids used by the checker (per site the same function
+   (keyL, keyR, operator) -> total coefficient; parallel edges add up, zero entries do not count) is sound
+   for the operator, from every start state k to every final state kf, for graphs of any length *)
+Theorem T11_UI_grid_sound : forall g h, grid_fun_eqb g h = true ->
+  forall kf i k, peq (ending kf (paths g i k)) (ending kf (paths h i k)).
+Proof. exact PropUICheckP.grid_fun_sound. Qed.
+
+(* every case the stream accepts: the operator of the implementation's U_I (paths IdL ->* IdL through its
+   W grid) is the Taylor polynomial sum_d dt^d * ui_den d (graph of H); the proof uses only the entry-wise
+   W grid comparison of the checker *)
+Theorem T11_UI_check_sound : forall c, check_UI_grid c = true ->
+  peq (denote_to IdL (ui_case_U c)) (ui_taylor (ui_t c) (ui_case_H c)).
+Proof. exact PropUICheckP.check_UI_grid_sound. Qed.
+
+(* ... and equals 1 + dt H + (orders 2 .. L) when the W grid of H is in standard sum form *)
+Theorem T11_UI_check_first_order : forall c, check_UI_grid c = true -> std_form (ui_case_H c) = true ->
+  peq (denote_to IdL (ui_case_U c))
+      ((c1, []) :: pscale (ui_t c) (denote (ui_case_H c)) ++
+       flat_map (fun d => pscale (cpow (ui_t c) d) (ui_den d (ui_case_H c)))
+                (seq 2 (length (ui_case_H c) - 1))).
+Proof. exact PropUICheckP.check_UI_grid_first_order. Qed.
+
+(* non-vacuity: an accepted case (H = 3 Sz_0 + (2+i) Sp_0 Sm_1, permuted bond indices with IdL > IdR on the
+   middle bond, dt = 1 + i) in standard sum form; a wrong coefficient / a wrong IdL index is rejected *)
+Example T11_ex_UI_check :
+  check_UI_grid PropUICheckP.uic_ex = true /\ std_form (ui_case_H PropUICheckP.uic_ex) = true /\
+  normalize (denote (ui_case_H PropUICheckP.uic_ex)) =
+    [((3, 0), [(0%nat, 1)]); ((2, 1), [(0%nat, 2); (1%nat, 3)])] /\
+  normalize (denote_to IdL (ui_case_U PropUICheckP.uic_ex)) =
+    [((1, 0), []); ((3, 3), [(0%nat, 1)]); ((1, 3), [(0%nat, 2); (1%nat, 3)])].
+Proof. exact PropUICheckP.uic_ex_ok. Qed.
+Example T11_ex_UI_check_rejects :
+  check_UI_grid PropUICheckP.uic_ex_bad1 = false /\ check_UI_grid PropUICheckP.uic_ex_bad2 = false.
+Proof. exact PropUICheckP.uic_ex_rejects. Qed.
+Example T11_ex_UI_grid_fun :
+  grid_fun_eqb [[mkE IdL IdL 0 (1, 0); mkE IdL IdL 0 (2, 1); mkE IdL (Oth 1) 4 (0, 0)]]
+               [[mkE IdL IdL 0 (3, 1)]] = true /\
+  grid_fun_eqb [[mkE IdL IdL 0 (1, 0)]] [[mkE IdL IdL 0 (3, 1)]] = false.
+Proof. exact PropUICheckP.grid_fun_ex. Qed.
+
 Example T11_ex_UI_std : std_form PropUIP.ui_ex_g = true /\ std_form PropUIP.ui_ex_g3 = true /\ PropUIP.ui_ex_g <> [].
 Proof. exact PropUIP.ui_ex_std. Qed.
 Example T11_ex_UI_order0 : ui_den 0 PropUIP.ui_ex_g = [(c1, [])] /\ ui_den 0 PropUIP.ui_ex_g3 = [(c1, [])].
@@ -117,3 +169,7 @@ Print Assumptions T11_UI_eval.
 Print Assumptions T11_UI_first_order.
 Print Assumptions T11_UI_order2.
 Print Assumptions T11_UI_terms_split.
+Print Assumptions T11_UI_graded_eval.
+Print Assumptions T11_UI_grid_sound.
+Print Assumptions T11_UI_check_sound.
+Print Assumptions T11_UI_check_first_order.
